@@ -55,7 +55,7 @@ Alphabet ==
     \cup (IF Rich THEN
             {[t |-> "C", kind |-> "S", name |-> n] : n \in Names}
             \cup {[t |-> "C", kind |-> "P", name |-> p] : p \in PNames}
-            \cup {[t |-> "D", kind |-> "x", name |-> ""], [t |-> "Q", q |-> QBlank],
+            \cup {[t |-> "D", kind |-> "x", name |-> ""], [t |-> "D", kind |-> "z", name |-> ""], [t |-> "C", kind |-> "z", name |-> ""], [t |-> "Q", q |-> QBlank],
                   [t |-> "Big", ty |-> "P", over |-> 1], [t |-> "Big", ty |-> "Q", over |-> 7],
                   [t |-> "U"], [t |-> "d"], [t |-> "X"]}
           ELSE {})
